@@ -6,13 +6,15 @@
 (* subset of the keys), so TLC covers histories of every length.           *)
 EXTENDS HashImpl
 
-MCKeysQuick == { <<"sym","a">>, <<"str","s">>, <<"int",7>>, <<"chr",7>>, <<"int",100>> }
+Arr1(x) == <<"arr", <<x>>>>
+MCKeysQuick == { <<"sym","a">>, <<"str","s">>, <<"int",7>>, <<"chr",7>>, <<"int",100>>, Arr1(Arr1(<<"chr",7>>)) }
 MCKeys == { <<"sym","a">>, <<"sym","b">>, <<"str","s">>, <<"int",7>>, <<"chr",7>>,
-            <<"int",100>>, <<"arr", << <<"int",100>> >> >> }
+            <<"int",100>>, Arr1(<<"int",100>>), Arr1(Arr1(<<"chr",7>>)) }
 MCVals == { <<"int",1>>, <<"int",2>> }
 MCCode(k) == CASE k = <<"sym","a">> -> 100      \* collides with the int key 100
                [] k = <<"sym","b">> -> 101
                [] k = <<"str","s">> -> 7        \* collides with the int key 7
                [] k[1] = "int" -> k[2]
+               [] k[1] = "arr" -> 900           \* an array is hashed by its printed form
                [] OTHER -> 0
 =============================================================================
